@@ -1,8 +1,8 @@
 SPECIFICATION Spec
 CONSTANTS
-  TW = 2
-  MaxN = 9
-  Deltas = {0, 1, 3}
+  TW = 3
+  MaxN = 7
+  Deltas = {0, 2}
   Guard1 = TRUE
   Guard4 = TRUE
   EdgeSlack = 0
